@@ -26,7 +26,7 @@ pub struct OsOpaqueIpcChannel { pub fd: c_int }
 pub struct BackingStore { pub fd: c_int }
 impl BackingStore { pub fn fd(&self) -> (r: c_int) ensures r == self.fd { self.fd } }
 // `ptr`, `length` omitted (unit U8)
-pub struct OsIpcSharedMemory { pub store: BackingStore }
+pub struct OsIpcSharedMemory { pub ptr: *mut u8, pub length: usize, pub store: BackingStore }   // same fields as the repository's (ptr is null for a zero-length region)
 impl OsIpcSharedMemory {
     // unsafe fn from_fd: BackingStore::from_fd + map_file(None) (fstat, mmap) - unit U8
     #[verifier::external_body]
@@ -47,3 +47,7 @@ impl UnixError {
     #[verifier::external_body]
     pub fn last() -> (r: UnixError) ensures r is Errno { unimplemented!() }
 }
+
+// <*mut T>::is_null (same assumed specification as in unit U8)
+pub assume_specification<T: std::marker::PointeeSized> [<*mut T>::is_null] (p: *mut T) -> (r: bool)
+    ensures r == (p@.addr == 0);
